@@ -37,6 +37,7 @@ def StepLegit (s : St) : Op → Prop
   | .relayout st => RelayoutOk s.store st
   | .remember _ q _ sched => LegitRemember s q sched
   | .showM n sched => LegitShow s n sched
+  | .showCut n sched => LegitShow s n sched
 
 def LegitRun : St → List Op → Prop
   | _, [] => True
@@ -104,6 +105,7 @@ def StepMono (s : St) : Op → Prop
   | .relayout st => RelayoutOk s.store st
   | .remember _ q _ sched => LegitRemember s q sched
   | .showM n sched => LegitShow s n sched
+  | .showCut n sched => LegitShow s n sched
 
 def MonoRun : St → List Op → Prop
   | _, [] => True
@@ -118,6 +120,7 @@ theorem okRun_of_monoRun {s : St} (hs : Reach s) : ∀ {ops}, MonoRun s ops → 
       | relayout st => exact h.1
       | remember n q now sched => exact h.1
       | showM n sched => exact h.1
+      | showCut n sched => exact h.1
     exact ⟨hok, okRun_of_monoRun (Reach.step hs hok) h.2⟩
 
 /-- **The instance**: with monotone arrival (one shard, monotone clocks) SHOW equals QUERY after
@@ -141,6 +144,10 @@ theorem remember_store (s : St) (n : Nat) (q : Spec) (now : Nat) (sched : List (
 theorem showM_store (s : St) (n : Nat) (sched : List (List Ev)) :
     (showM s n sched).1.store = s.store := by
   unfold showM; split <;> rfl
+
+theorem showCut_store (s : St) (n : Nat) (sched : List (List Ev)) :
+    (showCut s n sched).store = s.store := by
+  unfold showCut; split <;> rfl
 
 /-- Arrival order relation: not earlier second, larger id. -/
 def Before (r e : Ev) : Prop := r.ts ≤ e.ts ∧ r.id < e.id
@@ -178,6 +185,10 @@ theorem monoRun_of_pairwise : ∀ (ops : List Op) (s : St) (pre : List Ev),
       simp only [stores] at hpw hpos
       refine ⟨hl.1, monoRun_of_pairwise ops _ pre ?_ hpw hpos hl.2⟩
       simp only [step, showM_store]; exact hp
+    | showCut n sched =>
+      simp only [stores] at hpw hpos
+      refine ⟨hl.1, monoRun_of_pairwise ops _ pre ?_ hpw hpos hl.2⟩
+      simp only [step, showCut_store]; exact hp
 
 /-- **One shard.** If the ids of the applied events are what ONE id generator lifetime produces
 (`Snel.IdGen.run`, the model tied to `event_id.rs` by C18) under any clock inside the id window,
@@ -346,7 +357,7 @@ theorem inv0_step {s : St} (hi : Inv0 s) {op : Op} (hl : StepLegit s op) : Inv0 
       intro k e' hk
       simp only [setCat] at hk
       by_cases hkn : k = n
-      · simp only [hkn, if_true, Option.some.injEq] at hk; subst hk; rfl
+      · simp only [hkn, if_true, Option.some.injEq] at hk; subst hk; exact markOk_initial q now sched
       · simp only [hkn, if_false] at hk; exact hm k e' hk
   | showM n sched =>
     simp only [step]
@@ -362,6 +373,21 @@ theorem inv0_step {s : St} (hi : Inv0 s) {op : Op} (hl : StepLegit s op) : Inv0 
       by_cases hkn : k = n
       · simp only [hkn, if_true, Option.some.injEq] at hk; subst hk
         exact markOk_after_show (hm n e he) sched
+      · simp only [hkn, if_false] at hk; exact hm k e' hk
+  | showCut n sched =>
+    simp only [step]
+    cases he : s.cat n with
+    | none =>
+      have : showCut s n sched = s := by simp [showCut, he]
+      rw [this]; exact ⟨ht, hp, hm⟩
+    | some e =>
+      rw [showCut_cat he]
+      refine ⟨ht, hp, ?_⟩
+      intro k e' hk
+      simp only [setCat] at hk
+      by_cases hkn : k = n
+      · simp only [hkn, if_true, Option.some.injEq] at hk; subst hk
+        exact markOk_after_cut (hm n e he) sched
       · simp only [hkn, if_false] at hk; exact hm k e' hk
 
 theorem inv0_run {s : St} (hi : Inv0 s) : ∀ {ops}, LegitRun s ops → Inv0 (run s ops)
@@ -399,6 +425,46 @@ theorem C14_idempotent_regression :
     (showM (run St.init ops) 0 [[evP]]).2 = some [evP, evU, evQ] ∧
     (showM (showM (run St.init ops) 0 [[evP]]).1 0 [[evP]]).2 = some [evP, evU, evQ] := by
   refine ⟨by decide, by decide, rfl, rfl⟩
+
+/-! ## Interrupted SHOWs -/
+
+/-- **An interrupted SHOW does no harm.** If a SHOW stored its delta frames but never rewrote the
+catalog entry (client gone, or process killed and restarted), the next SHOW — whose delta filter
+compares against the manifest's mark, not the lagging catalog mark — still returns exactly the
+rows of the live query. (Any number of interrupted SHOWs anywhere in the history: they are
+ordinary steps of `OkRun`; `C14_idempotent` and `C14_each_once` cover them as well.) -/
+theorem C14_interrupted_show_harmless (ops : List Op) (h : OkRun St.init ops) {n : Nat}
+    {cut sched : List (List Ev)} {e' : Entry} {rows : List Ev}
+    (hc : LegitShow (run St.init ops) n cut)
+    (he' : (showCut (run St.init ops) n cut).cat n = some e')
+    (hl : LegitShow (showCut (run St.init ops) n cut) n sched)
+    (hrows : (showM (showCut (run St.init ops) n cut) n sched).2 = some rows) :
+    rows.Perm (runQuery (run St.init ops).store e'.q none) := by
+  have hr : Reach (showCut (run St.init ops) n cut) :=
+    Reach.step (op := .showCut n cut) (reach_of_okRun Reach.init h) hc
+  have hi := reach_inv hr
+  rw [showM_rows he'] at hrows
+  cases hrows
+  rw [runQuery_none, ← showCut_store (run St.init ops) n cut]
+  exact show_rows_perm hi he' hl
+
+/-- STORE Q; REMEMBER (mark (5,100)); STORE P; a SHOW that stores its delta [P] and is cut before
+the catalog update. -/
+def histCut : List Op :=
+  [.store evQ, .remember 0 qAll 20 [[evQ]], .store evP, .showCut 0 [[evQ, evP]]]
+
+/-- Why the filter must use the manifest's mark: after `histCut` the manifest says `(10,300)`,
+the catalog entry still `(5,100)`. The next delta query (SINCE 5) delivers Q and P; filtered by
+the manifest mark nothing is kept, filtered by the catalog mark (`catalogFirstMark`, the branch the
+source must not take) P — already stored — is kept again: shown twice, stored twice. -/
+theorem C14_filter_by_catalog_mark_fails :
+    LegitRun St.init histCut ∧
+    ∃ e, (run St.init histCut).cat 0 = some e ∧ e.mark = some (5, 100) ∧
+      sinkMark e.frames = (10, 300) ∧ evP ∈ e.frames.flatten ∧
+      LegitShow (run St.init histCut) 0 [[evQ, evP]] ∧
+      keptBatches (filterMark e) [[evQ, evP]] = [] ∧
+      keptBatches (catalogFirstMark e) [[evQ, evP]] = [[evP]] := by
+  refine ⟨by decide, _, rfl, by decide, by decide, by decide, by decide, by decide, by decide⟩
 
 /-! ## Each event once -/
 
@@ -478,6 +544,19 @@ theorem framesOk_step {s : St} (hi : Inv0 s) (hf : FramesOk s) (hn : s.store.vis
       by_cases hkn : k = n
       · simp only [hkn, if_true, Option.some.injEq] at hk; subst hk
         rw [afterShow_frames, flatten_append]
+        exact show_rows_nodup hi hf hn he hl
+      · simp only [hkn, if_false] at hk; exact hf k e' hk
+  | showCut n sched =>
+    simp only [step]
+    cases he : s.cat n with
+    | none => simpa [showCut, he] using hf
+    | some e =>
+      rw [showCut_cat he]
+      intro k e' hk
+      simp only [setCat] at hk
+      by_cases hkn : k = n
+      · simp only [hkn, if_true, Option.some.injEq] at hk; subst hk
+        rw [afterCut_frames, flatten_append]
         exact show_rows_nodup hi hf hn he hl
       · simp only [hkn, if_false] at hk; exact hf k e' hk
 
@@ -587,7 +666,7 @@ theorem C14_zone_drop_sound_fails :
         (fun r => lexGt r.pos (sinkMark entryOld.frames)) = [] ∧
     (runQuery { mem := [], zones := [zoneOld] } entryOld.q none).filter
         (fun r => lexGt r.pos (sinkMark entryOld.frames)) = [evT] := by
-  refine ⟨rfl, ?_, by decide, by decide⟩
+  refine ⟨markOk_initial _ _ _, ?_, by decide, by decide⟩
   intro h
   have := (h zoneOld (by simp) evT (by simp [zoneOld])).2
   simp [zoneOld, evT] at this
